@@ -77,6 +77,33 @@ fn one_gds(id: &str, t: &mut Tape, dir: &Path, probes: &mut std::collections::BT
     if file != bytes0 {
         return Some(Viol { sig: format!("realfs:save/bytes/{}", pre), detail: format!("the saved file ({} bytes, destination was {}) differs from the stream write() produces ({} bytes): it is not a GDSII stream ending with ENDLIB holding that content", file.len(), pre, bytes0.len()) });
     }
+    if id == "C01" && bytes0.len() < 60_000 {
+        // the same bytes through a named pipe: not a regular file, not seekable; a conformant stream must still be read
+        let fifo = dir.join("pipe.gds");
+        let _ = std::fs::remove_file(&fifo);
+        let c = std::ffi::CString::new(fifo.to_string_lossy().as_bytes()).unwrap();
+        if unsafe { libc::mkfifo(c.as_ptr(), 0o600) } == 0 {
+            let data = bytes0.clone();
+            let fp = fifo.clone();
+            let w = std::thread::spawn(move || {
+                if let Ok(mut f) = std::fs::OpenOptions::new().write(true).open(&fp) {
+                    use std::io::Write;
+                    let _ = f.write_all(&data);
+                }
+            });
+            let r = gds21::GdsLibrary::open(&fifo);
+            let _ = w.join();
+            *probes.entry("opened_through_a_fifo".into()).or_insert(0) += 1;
+            match r {
+                Err(e) => return Some(Viol { sig: "realfs:open-fifo/result".into(), detail: format!("a conformant stream delivered through a named pipe is rejected: {}", e) }),
+                Ok(l2) => {
+                    if l2 != lib {
+                        return Some(Viol { sig: "realfs:open-fifo/value".into(), detail: "the library read through a named pipe differs".into() });
+                    }
+                }
+            }
+        }
+    }
     if id == "C01" {
         for (what, r) in [("open", gds21::GdsLibrary::open(&path)), ("load", gds21::GdsLibrary::load(&path))] {
             match r {
